@@ -6,7 +6,7 @@
                    /\ every filed router's source network is a key of self.routers.
    "At most one next hop per (snet, dnet)" is the functionality of the lookup together with
    C19_one_next_hop. *)
-From Bac Require Import Base RouterCache RouterCacheFacts.
+From Bac Require Import Base RouterCache RouterCacheFacts RouterCacheSweep.
 Open Scope Z_scope.
 
 Theorem C19_init : Coherent empty.
@@ -94,6 +94,22 @@ Theorem C19_renumber_partial : forall s old new, zmem old (nets s) = false ->
 Proof. exact renumber_unknown. Qed.
 Print Assumptions C19_renumber_partial.
 
+(* PARTIAL, bounded: renumbering after EVERY history of length <= 2 over the 54-operation alphabet
+   sweep_alphabet (learn one/two destinations, forget router, forget destination, renumber; 2 source
+   nets + a fresh number x 3 routers x 4 destinations), for the six renumberings sweep_renums
+   (including onto an occupied number and onto itself): never an exception, coherent afterwards.
+   A complete sweep of that finite domain inside the kernel (forallb ... = true by vm_compute,
+   lifted with forallb_forall and coh_b_sound), not a proof for all states. *)
+Theorem C19_renumber_swept_partial : forall h r, In h sweep_histories -> In r sweep_renums ->
+  exists s', step (run empty h) r = Ok s' /\ Coherent s'.
+Proof. exact sweep_renumber. Qed.
+Print Assumptions C19_renumber_swept_partial.
+
+(* the boolean coherence test used by the sweep implies the invariant *)
+Theorem C19_coherence_test_sound : forall s, coh_b s = true -> Coherent s.
+Proof. exact coh_b_sound. Qed.
+Print Assumptions C19_coherence_test_sound.
+
 (* PARTIAL (same gap): histories of any length without renumbering.  Every operation either
    succeeds or is the refused delete_router_info(snet); the cache stays coherent. *)
 Theorem C19_history_coherent_partial : forall h, no_renum h -> Coherent (run empty h).
@@ -130,6 +146,14 @@ Proof.
 Qed.
 Example C19_example_no_renum : no_renum [Learn 1 1 [10] 0; Forget 1 None (Some [10]); Status 1 1 2; Forget 1 (Some 1) None].
 Proof. reflexivity. Qed.
+Example C19_example_sweep_domain :
+  In [] sweep_histories /\ In (Renum 1 2) sweep_renums /\
+  length sweep_alphabet = 54%nat /\ length sweep_histories = 2971%nat /\
+  nth_error sweep_histories 100 = Some [Learn 1 1 [10] 0; Forget 2 (Some 3) None].
+Proof.
+  split; [left; reflexivity|]. split; [left; reflexivity|].
+  split; [vm_compute; reflexivity|]. split; vm_compute; reflexivity.
+Qed.
 (* the three repaired defects, on the model of the repaired code *)
 Example C19_example_forget_dnets_no_nameerror :
   step (run empty [Learn 1 1 [10; 11] 0]) (Forget 1 None (Some [10])) <> Err NameErr /\
